@@ -260,6 +260,24 @@ Proof.
   apply andb_true_iff in Hb as [H1 H2]. lia.
 Qed.
 
+(* a contract call never costs less than the account-block base, under whichever method table it is priced *)
+Lemma base_plasma_method_at_least_base key len b :
+  base_plasma false true true key len = BOk b -> AccountBlockBasePlasma <= b.
+Proof.
+  intros H. apply base_plasma_method in H. unfold EmbeddedSimplePlasma, AccountBlockBasePlasma in *. lia.
+Qed.
+
+(* every user block that has a base cost at all costs at least the account-block base *)
+Lemma base_plasma_at_least_account_block_base r c f key len b :
+  0 <= len -> base_plasma r c f key len = BOk b -> AccountBlockBasePlasma <= b.
+Proof.
+  intros Hl H. destruct r; [unfold base_plasma in H; inversion H; lia|].
+  destruct c.
+  - destruct f; [apply (base_plasma_method_at_least_base key len); exact H|unfold base_plasma in H; discriminate].
+  - unfold base_plasma in H. destruct (MaxDataLength <? len) eqn:E; [discriminate|]. inversion H.
+    unfold u64. rewrite Z.mod_small; unfold MaxDataLength, ABByteDataPlasma, AccountBlockBasePlasma, two64 in *; lia.
+Qed.
+
 (* ---- the hand-written decision functions ARE the code: AvailablePlasma (vm/plasma.go) and enoughPlasma (vm/vm.go) as
    translated by go2coq on every run (gen/Pure.v). The store reads (GetChainPlasma of the confirmed and of the
    unconfirmed account store, GetStakeBeneficialAmount), GetBasePlasmaForAccountBlock, IsEmbeddedAddress and the
